@@ -195,6 +195,15 @@ CLAIMED = {
             "sub-directory: exactly the entries of the exported (sub-)tree are yielded, under the right relative path; "
             "special and filtered entries never. The archive writers (tar/zip/dir, I/O) are outside.",
             "tree is a stub; paths are well-formed '/'-separated tree paths"),
+    "C43": ("one incremental upload step over files with symbolic names",
+            "The real BzrUploader.upload_tree (with rename_remote / finish_renames / upload_file / delete_remote_file and "
+            "the uploaded-revision bookkeeping) from an arbitrary consistent state: the remote directory equals the "
+            "previously uploaded tree, the new tree differs by any mix of unchanged / modified / removed / added / "
+            "renamed / renamed-and-modified files whose names are SYMBOLIC (the solver decides swaps, chains and reuse of "
+            "vacated names); afterwards the remote directory holds exactly the new tree's files with the new contents "
+            "and the uploaded revision id is recorded. Directories, symlinks, kind changes, executable bits, ignore "
+            "rules and full uploads are outside.",
+            "remote transport = flat map refusing renames onto occupied names; the tree delta is computed by the harness"),
     "C45": ("eol filter stack",
             "All 7 eol settings on content <= 6/9 arbitrary bytes, every chunk split: NUL content untouched, canonical text "
             "round-trips, writer output form, independence of chunking; the module's look-behind regex is interpreted by the "
@@ -249,7 +258,6 @@ NOT_APPLICABLE = {
     "C38": "differential behaviour of SQLite / TDB / index-file stores - storage engines and I/O",
     "C40": "bundle (de)serialisation over real repositories (pack container, bencode, multiparent diffs - compiled) and testaments of installed revisions",
     "C42": "tar/zip/dir writers over real revision trees (I/O, zlib)",
-    "C43": "remote directory state after sequences of real commits (I/O)",
     "C44": "two whole-repository converters over real histories",
     "C46": "directory layouts on a real file system and WorkingTree.extras",
     "C47": "every function named (is_inside, minimum_path_selection, split_lines, chunks_to_lines, date helpers, pathjoin/splitpath) is implemented in Rust (crates/osutils); there is no symbolic engine for Rust in this sandbox",
